@@ -98,7 +98,12 @@ func genWop(c *core.Chooser) wop {
 
 func failingWop(c *core.Chooser) wop {
 	n := c.Size(30, 0, 1)
-	return wop{kind: 7, n: n, b: c.Blob(n+1+c.Intn(5), "nonul"), fail: true}
+	b := c.Blob(n+1+c.Intn(5), "nonul")
+	if c.Prob(1, 3) {
+		// over-long AND with a NUL inside (at the front, inside the slot, right behind it): still too long
+		b[[]int{0, c.Intn(len(b)), min(n, len(b)-1)}[c.Intn(3)]] = 0
+	}
+	return wop{kind: 7, n: n, b: b, fail: true}
 }
 
 type wmodel struct {
